@@ -37,12 +37,14 @@ VALUES = {
 }
 
 
-def native_like(host, z=None):
+def native_like(host, z=None, ints=None):
     """object that passes isinstance(x, types.CodeType) and has exactly the data attributes of a real code object of `host`;
     field number z (if any) holds the falsy value of its type ('' / 0 / () / b'') instead of its marker.
     Returns (object, surface, values)"""
     surface = [a for a in oracles.opcode_dump(host)["code_dir"] if a in VALUES]
     values = dict(VALUES)
+    if ints:
+        values.update(ints)
     if z is not None:
         for i, a in enumerate(surface):
             if z == i:
@@ -146,6 +148,59 @@ def to_native_ob(host):
               oracle="constructor signature of the real interpreter")
 
 
+INT_FIELDS = [("co_argcount", (0, 255)), ("co_posonlyargcount", (0, 255)), ("co_kwonlyargcount", (0, 255)), ("co_nlocals", (0, 65535)),
+              ("co_stacksize", (0, 2 ** 31 - 1)), ("co_flags", (0, 2 ** 32 - 1)), ("co_firstlineno", (0, 2 ** 31 - 1))]
+
+
+def to_native_ints_ob(host):
+    """every integer field symbolic over its whole range (co_flags: all 32 bits, so interpreter-specific and __future__ bits
+    are in the claim): the constructor must receive exactly the field values (added after seed C16-j)"""
+    params_order = ctor_params(host)
+    surface0 = [a for a in oracles.opcode_dump(host)["code_dir"] if a in VALUES]
+    fields = [(f, r) for f, r in INT_FIELDS if f in surface0]
+
+    assert [f for f, _r in fields] == [f for f, _r in INT_FIELDS]   # every 3.8+ host has all seven
+
+    def body(micro, argcount, posonlyargcount, kwonlyargcount, nlocals, stacksize, flags, firstlineno):
+        import xdis.codetype as CT
+        from xdis.codetype import code30, code38, code310, code311
+        ints = {"co_argcount": argcount, "co_posonlyargcount": posonlyargcount, "co_kwonlyargcount": kwonlyargcount,
+                "co_nlocals": nlocals, "co_stacksize": stacksize, "co_flags": flags, "co_firstlineno": firstlineno}
+        nat, surface, values = native_like(host, None, ints)
+        vt = (host[0], host[1], micro)
+        p = CT.codeType2Portable(nat, vt)
+        for f in ints:
+            assert getattr(p, f) == ints[f], "portable field %s = %r, native value %r" % (f, getattr(p, f), ints[f])
+        calls = []
+
+        class _Types(object):
+            @staticmethod
+            def CodeType(*args):
+                calls.append(args)
+                return ("native", args)
+        saved = []
+        for mod in (code30, code38, code310, code311):
+            saved.append((mod, mod.types, mod.PYTHON_VERSION_TRIPLE))
+            mod.types = _Types
+            mod.PYTHON_VERSION_TRIPLE = vt
+        try:
+            p.to_native()
+        finally:
+            for mod, t, tr in saved:
+                mod.types = t
+                mod.PYTHON_VERSION_TRIPLE = tr
+        assert len(calls) == 1, "constructor calls: %d" % len(calls)
+        for name, val in zip(params_order, calls[0]):
+            if name in ints:
+                assert val == ints[name], "constructor slot %s received %r, field value is %r" % (name, val, ints[name])
+
+    return Ob(id="C16.to_native.%d%d.ints" % host, prop="C16", params=[("micro", (0, 30))] + [(f[3:], r) for f, r in fields],
+              body=body, funcs=FUNCS, region="to_native.%d%d" % host,
+              skeleton="to_native() of the %d.%d class with every integer field symbolic" % host,
+              bound="micro 0..30; argcounts 0..255, nlocals 0..65535, stacksize/firstlineno 0..2**31-1, co_flags 0..2**32-1 (all 32 flag bits)",
+              timeout=90, oracle="constructor receives the native object's value in every integer slot")
+
+
 def replace_ob(host, field):
     def body(v, micro):
         import copy
@@ -199,6 +254,21 @@ fa = [k for k in src_a.co_consts if hasattr(k, "co_code")][0]
 fb = [k for k in src_b.co_consts if hasattr(k, "co_code")][0]
 objs = {"loop": loop.__code__, "closure": outer.__code__, "inner": [k for k in outer.__code__.co_consts if hasattr(k, "co_code")][0],
         "method": K.m.__code__, "gen": gen.__code__, "lambda": lam.__code__, "module": src_a, "same-text-a": fa, "same-text-b": fb}
+import __future__
+for _fn in ("print_function", "unicode_literals", "division", "annotations", "generator_stop", "barry_as_FLUFL"):
+    _fl = getattr(__future__, _fn).compiler_flag
+    try:
+        _m = compile("def f(a):\n    return a\n", "fut_%s.py" % _fn, "exec", flags=_fl, dont_inherit=True)
+    except Exception:
+        continue
+    objs["future-" + _fn] = _m
+    objs["future-" + _fn + "-f"] = [k for k in _m.co_consts if hasattr(k, "co_code")][0]
+if hasattr(lam.__code__, "replace"):
+    for _bit in range(32):
+        try:
+            objs["flagbit-%d" % _bit] = lam.__code__.replace(co_flags=lam.__code__.co_flags | (1 << _bit))
+        except Exception:
+            pass
 fields = [n for n in dir(loop.__code__) if n.startswith("co_") and not callable(getattr(loop.__code__, n))]
 if sys.version_info >= (3, 10) and "co_lnotab" in fields:
     fields.remove("co_lnotab")   # deprecated derived view
@@ -230,7 +300,7 @@ def real_ob(host):
         bad = oracles.run_in(host, _RT_SCRIPT.replace('@REPO@', common.REPO), None)
         if bad:
             return "refuted", "%d mismatches" % len(bad), {"first": "|".join(str(x) for x in bad[0])}, 0, 0.0
-        return "confirmed", "9 code objects x 2 passes", None, 0, 0.0
+        return "confirmed", "9 code objects + __future__ compile-flag variants + one variant per co_flags bit, x 2 passes", None, 0, 0.0
 
     def replay(first):
         bad = oracles.run_in(host, _RT_SCRIPT.replace('@REPO@', common.REPO), None)
@@ -241,7 +311,7 @@ def real_ob(host):
 
     return Ob(id="C16.real.%d%d" % host, prop="C16", params=[], body=None, direct=q, replay=replay, funcs=FUNCS,
               region="real.%d%d" % host, skeleton="real code objects round-tripped inside CPython %d.%d" % host,
-              bound="9 real code objects, each converted twice, interleaved", timeout=120, oracle="R-real (concrete)")
+              bound="9 real code objects, 12 compiled with each __future__ compiler flag, 32 with one extra co_flags bit each; each converted twice, interleaved", timeout=120, oracle="R-real (concrete)")
 
 
 def generate(tier, seed):
@@ -250,6 +320,7 @@ def generate(tier, seed):
     for h in HOSTS:
         obs.append(portable_ob(h))
         obs.append(to_native_ob(h))
+        obs.append(to_native_ints_ob(h))
         obs.append(real_ob(h))
         nat, surface, _v = native_like(h)
         for f in surface:
